@@ -47,8 +47,31 @@ def sentence(minw=1, maxw=8):
 
 
 descr = st.builds(lambda s, dot: s + ("." if dot else ""), sentence(), st.booleans())
+# punctuation that realistic descriptions carry (none of it is a documented trigger): comma lists, parentheses, hyphens,
+# digits, colons, quotes, slashes, brackets, capitalised words, a second sentence
+_PUNCT = [
+    lambda a, b: "%s, %s and %s" % (a, b, a), lambda a, b: "%s (%s) %s" % (a, b, a), lambda a, b: "%s-%s %s" % (a, b, a),
+    lambda a, b: "%s 3 %s 10" % (a, b), lambda a, b: "%s: %s %s" % (a, b, a), lambda a, b: "%s; %s" % (a, b),
+    lambda a, b: "%s's %s" % (a, b), lambda a, b: '%s "%s" %s' % (a, b, a), lambda a, b: "%s/%s" % (a, b),
+    lambda a, b: "%s [%s]" % (a, b), lambda a, b: "%s %s" % (a.capitalize(), b.capitalize()), lambda a, b: "%s_%s %s" % (a, b, a),
+    lambda a, b: "%s. %s %s" % (a, b.capitalize(), a), lambda a, b: "%s = %s" % (a, b), lambda a, b: "%s > %s" % (a, b),
+    lambda a, b: "100%% %s" % a, lambda a, b: "%s & %s" % (a, b), lambda a, b: "%s #1" % a, lambda a, b: "(%s)" % a, lambda a, b: "%s -- %s" % (a, b),
+]
+rich_descr = st.builds(lambda f, a, b, dot: f(a, b) + ("." if dot else ""), st.sampled_from(_PUNCT), sentence(1, 3), sentence(1, 3), st.booleans())
+mixed_descr = st.one_of(descr, descr, rich_descr)
+rich_names = st.one_of(
+    names, names,
+    st.from_regex(r"_?[a-z][a-zA-Z0-9]{0,6}([A-Z][a-z0-9]{1,4}){0,2}", fullmatch=True).filter(_name_ok),
+    st.from_regex(r"[A-Z][A-Z0-9_]{0,5}[A-Z0-9]", fullmatch=True).filter(_name_ok),
+)
 long_descr = st.builds(lambda s, dot: s + ("." if dot else ""), sentence(10, 22), st.booleans())
-lit_member = st.from_regex(r"[a-z]{1,6}", fullmatch=True)
+# Literal members: letters only, or with digits / underscores / a dash (`float32`, `channels_first`, `utf-8`)
+lit_member = st.one_of(
+    st.from_regex(r"[a-z]{1,6}", fullmatch=True),
+    st.from_regex(r"[a-z][a-z0-9_]{1,7}", fullmatch=True).filter(lambda s: not s.endswith("_")),
+    st.from_regex(r"[a-z]{1,4}-[a-z0-9]{1,3}", fullmatch=True),
+    st.from_regex(r"[A-Z][a-zA-Z0-9]{1,5}", fullmatch=True),
+)
 plain_str = st.from_regex(r"[A-Za-z][A-Za-z0-9_/~-]{0,10}", fullmatch=True).filter(lambda s: s not in ("None", "True", "False"))
 ints = st.one_of(st.integers(-(10**6), 10**6), st.sampled_from([0, 1, -1, 7, -5, -100, -101, 255, 10**9, -(10**12)]))
 floats = st.one_of(
@@ -135,10 +158,10 @@ def can_default(kind):
 
 
 @st.composite
-def interface(draw, profile="docstring", min_params=0, max_params=7, suffix=True, returns=True, ret_default=False, min_literal=1, doc=descr, header=True):
+def interface(draw, profile="docstring", min_params=0, max_params=7, suffix=True, returns=True, ret_default=False, min_literal=1, doc=descr, header=True, name_strategy=None):
     kinds_allowed = KINDS[profile]
     n = draw(st.one_of(st.integers(min_params, max_params), st.integers(max(min_params, 2), min(max_params, 5))))
-    ns = draw(st.lists(names, min_size=n, max_size=n, unique=True))
+    ns = draw(st.lists(names if name_strategy is None else name_strategy, min_size=n, max_size=n, unique=True))
     ps = [draw(typed_param(kinds_allowed, min_literal=min_literal, doc=doc)) for _ in ns]
     if suffix:
         seen = False
